@@ -1640,3 +1640,42 @@ Proof.
   { unfold view. destruct (c_kind c); try reflexivity; contradiction. }
   rewrite V in P. unfold serve in *. repeat split; auto.
 Qed.
+
+Theorem referrers_exactly_once_inv :
+  forall (L : list item) (cap : nat) (ds : nat -> decision)
+         (render : nat -> url -> url -> str) (trailer : nat -> str)
+         (resolve : url -> str -> option url) (c : cfg) (cu : cursor) (npath : nat -> str -> str) (vis : item -> bool)
+         (InvQ : url -> Prop) (path : str) (fuel : nat),
+    cursor_ok cu ->
+    c_kind c = KReferrers ->
+    NoDup (map fst L) -> (forall it, In it L -> fst it <> []) ->
+    (forall i base x, InvQ base -> In x (map fst L) ->
+       contains c_gt (render i base (link_target ds cu npath i base x)) = false) ->
+    (forall i base x, InvQ base -> In x (map fst L) ->
+       resolve base (render i base (link_target ds cu npath i base x)) = Some (link_target ds cu npath i base x)) ->
+    (forall i base x, InvQ base -> In x (map fst L) ->
+       InvQ (mk_request c (link_target ds cu npath i base x) [])) ->
+    InvQ (mk_request c (mkUrl path (referrers_query (c_at c))) []) ->
+    (forall i, (Z.of_N (d_doc_len (ds i)) <= eff_limit (c_limit c))%Z) ->
+    (forall i, qget k_at (d_extra (ds i)) = None) ->
+    (length L < fuel)%nat ->
+    let t := loop (reg_serve KReferrers cu npath vis L cap ds render trailer) resolve (fun _ => false) c
+                  fuel 0 0 (mkUrl path (referrers_query (c_at c))) [] in
+    t_out t = Done /\
+    concat (t_pages t) = filter_referrers (filter vis L) (c_at c) /\
+    (length (t_reqs t) <= S (length L))%nat.
+Proof.
+  intros L cap ds render trailer resolve c cu npath vis InvQ path fuel Hcu K Hnd Hne Hgt Hres Hinv H0 Hfit Hex Hfuel.
+  assert (Hrest : rest_of L cu (mk_request c (mkUrl path (referrers_query (c_at c))) []) = L).
+  { unfold rest_of. rewrite start_cursor by (auto; intros k s E; apply referrers_query_other; rewrite E in Hcu; apply Hcu).
+    unfold qget_s. rewrite mk_request_last. rewrite K. cbn [sends_last andb u_query].
+    unfold referrers_query. destruct (is_empty (c_at c)); reflexivity. }
+  assert (Hat : c_kind c = KReferrers ->
+                qget_s k_at (u_query (mk_request c (mkUrl path (referrers_query (c_at c))) [])) = c_at c).
+  { intros _. unfold qget_s. rewrite mk_request_at. cbn [u_query]. unfold referrers_query.
+    destruct (c_at c) as [|x a]; [reflexivity|]. cbn [is_empty qget]. now rewrite str_eqb_refl. }
+  pose proof (loop_listing L cap ds render trailer resolve c cu npath vis InvQ Hnd Hne Hgt Hres Hinv
+              (fun _ => Hex) Hcu Hfit fuel 0%nat 0%nat (mkUrl path (referrers_query (c_at c))) [] L []
+              Hrest eq_refl Hat H0 Hfuel) as H.
+  unfold serve in H. rewrite K in H. unfold view in H. rewrite K in H. exact H.
+Qed.
